@@ -177,18 +177,36 @@ def _work(item):
                         "%s def f%s: check_call_in_cache(%s) answered %r but the following identical call executed the body %d time(s)" % (
                             kind, sigs.sig_label(s), tag, inc, executed), rp)
             # eviction: after clear / reduce_size the call must execute again
-            if gi % 2 == 0:
+            if gi % 3 == 0:
                 mem.clear(warn=False)
                 how = "clear"
-            else:
+                cf2 = mem.cache(fn)
+            elif gi % 3 == 1:
                 mem.reduce_size(items_limit=0)
                 how = "reduce_size(items_limit=0)"
-            cf2 = mem.cache(fn)
+                cf2 = mem.cache(fn)
+            else:
+                # the cached function's own clear(), the same wrapper object keeps being used
+                cf.clear(warn=False)
+                how = "f.clear()"
+                cf2 = cf
             r = _one(kind, cf2, cname, forms[0][0], forms[0][1])
             n += 1
             if r[1] != 1 or r[0]:
                 bad("served-after-eviction|%s|%s" % (kind, how.split("(")[0]),
                     "%s def f%s: after %s the call (%s) executed %d time(s), check_call_in_cache said %r" % (kind, sigs.sig_label(s), how, forms[0][2], r[1], r[0]), rp0)
+            # ... and the entry written after the eviction is a completed call like any other: a fresh process is served
+            if (gi % 3 == 2 or gi % 4 == 0) and kind != "partial":
+                res = core.run_isolated(_child_forms, (kind, idx, loc, [(forms[-1][0], forms[-1][1])]), timeout=60)
+                n += 1
+                if res[0] != "ok":
+                    bad("fresh-process-fails|%s" % kind, "call in a fresh process after %s + call: %r" % (how, res), rp0)
+                else:
+                    inc, executed, value = res[1][0][0], res[1][0][1], _untuple(res[1][0][2])
+                    if executed != 0 or not inc or value != expected:
+                        bad("re-executed|%s|after-%s|fresh-process" % (kind, how.split("(")[0]),
+                            "%s def f%s: %s, then the call (%s) [executed, stored]; a fresh process repeating it as (%s): check_call_in_cache=%r, executed %d time(s), value %r" % (
+                                kind, sigs.sig_label(s), how, forms[0][2], forms[-1][2], inc, executed, value), rp0)
         # ignore lists and order-insensitive arguments (not for partial: not inspected by design, reported above)
         names = sigs.param_names(s)
         kinds_ = [k for k, _ in s]
@@ -493,7 +511,7 @@ def run(ctx):
     ctx.rule = ("every signature with <= %d parameters x {plain function, bound method, functools.partial, async def}; for every target "
                 "binding (each defaulted parameter at its default or not, 0-1 surplus positionals, 0-2 surplus keywords) ALL call forms "
                 "that Signature.bind maps to that binding, issued one after the other on one cache directory (second half in a fresh "
-                "forked process for every third group); then clear() or reduce_size(items_limit=0) and the call again; ignore=[p] for "
+                "forked process for every third group); then clear() / reduce_size(items_limit=0) / f.clear() and the call again, repeated in a fresh process; ignore=[p] for "
                 "every named parameter (ignored value changed: no execution; other parameter changed: execution); dict and set "
                 "arguments rebuilt in another insertion order. Parameter names: every identifier joblib uses as a parameter name in "
                 "memory / func_inspect / _store_backends / hashing / logger (%d names) x {first parameter, keyword-only parameter, key "
